@@ -15,6 +15,7 @@ import (
 	"github.com/lni/dragonboat/v4/internal/logdb/kv/pebble"
 	"github.com/lni/dragonboat/v4/internal/rsm"
 	"github.com/lni/dragonboat/v4/internal/server"
+	"github.com/lni/dragonboat/v4/internal/tan"
 	"github.com/lni/dragonboat/v4/internal/vfs"
 	"github.com/lni/dragonboat/v4/raftio"
 	pb "github.com/lni/dragonboat/v4/raftpb"
@@ -41,8 +42,9 @@ type memStore struct {
 	// real, when set, is a real log store (sharded Pebble on an in-memory file system) that
 	// receives every write and answers every read of the replica; the fields above then are the
 	// shadow the monitors use. It is closed and reopened at every restart of the replica.
-	real   raftio.ILogDB
-	realFS vfs.IFS
+	real    raftio.ILogDB
+	realFS  vfs.IFS
+	realTan bool
 }
 
 // openReal (re)opens the real log store of the replica.
@@ -57,7 +59,14 @@ func (s *memStore) openReal() {
 	cfg := config.NodeHostConfig{NodeHostDir: "/nh", RTTMillisecond: 10, RaftAddress: "a:1",
 		Expert: config.ExpertConfig{FS: s.realFS, LogDB: config.GetTinyMemLogDBConfig()}}
 	must(cfg.Prepare())
-	db, err := logdb.NewLogDB(cfg, nil, []string{"/nh/db"}, []string{"/nh/db"}, false, true, pebble.NewKVStore)
+	var db raftio.ILogDB
+	var err error
+	if s.realTan {
+		must(s.realFS.MkdirAll("/nh/db", 0755))
+		db, err = tan.Factory.Create(cfg, nil, []string{"/nh/db"}, []string{"/nh/db"})
+	} else {
+		db, err = logdb.NewLogDB(cfg, nil, []string{"/nh/db"}, []string{"/nh/db"}, false, true, pebble.NewKVStore)
+	}
 	must(err)
 	s.real = db
 }
